@@ -188,4 +188,81 @@ def allowedTrace (h : Hist) : List Ev → Bool
   | [] => true
   | (op, r) :: t => allowed h op r && allowedTrace ((op, r) :: h) t
 
+/-! ### Histories with awaiting watchers
+
+A watcher that sits in `message().await` is served by nobody's polling: "goes on to report its
+latest status once updates stop" then means that the report reaches the waiting task by itself.
+The check below runs over an observed history of `Item`s (`Basic/HealthTypes`): every answer is
+judged by `clauses` exactly as in a polled history (an `await` that parks counts as the answer
+"nothing to deliver", a completion of a parked task as the answer its poll gave), and after
+every item each task that is still parked must be entitled to be: "nothing to deliver" must be
+an acceptable answer of its stream at that moment (`mayStayParked`).  So a task parked on a
+name whose status then changes, or which is cleared, has to complete — with an acceptable
+answer — before the next item; re-setting the status it reported last need not wake it. -/
+
+def firstFail (cs : List (String × Bool)) : Option String :=
+  (cs.find? (fun c => !c.2)).map (·.1)
+
+/-- A task awaiting stream `w` may stay parked. -/
+def mayStayParked (h : Hist) (w : Nat) : Bool := allowed h (.next w) .pending
+
+/-- Completions reported with an item: each is of a parked stream, delivers something, and what
+it delivers is an acceptable answer of that stream at that point. -/
+def checkWoken : Hist → List Nat → List (Nat × Resp) → Except String (Hist × List Nat)
+  | h, pk, [] => .ok (h, pk)
+  | h, pk, (w, r) :: rest =>
+    if !pk.contains w then .error "completion-of-a-parked-watcher"
+    else if r = .pending then .error "completion-delivers"
+    else match firstFail (clauses h (.next w) r) with
+      | some c => .error c
+      | none => checkWoken ((.next w, r) :: h) (pk.filter (fun x => x != w)) rest
+
+/-- The item's own answer. -/
+def checkAnswer (h : Hist) (pk : List Nat) (it : Item) (a : Ans) : Except String (Hist × List Nat) :=
+  match it, a with
+  | .await w, .busy => if pk.contains w then .ok (h, pk) else .error "stream-held-by-awaiting-task"
+  | .op (.next w), .busy => if pk.contains w then .ok (h, pk) else .error "stream-held-by-awaiting-task"
+  | _, .busy => .error "stream-held-by-awaiting-task"
+  | .await w, .parked =>
+    if pk.contains w then .error "stream-held-by-awaiting-task"
+    else match firstFail (clauses h (.next w) .pending) with
+      | some c => .error c
+      | none => .ok ((.next w, .pending) :: h, w :: pk)
+  | .await w, .plain r =>
+    if pk.contains w then .error "stream-held-by-awaiting-task"
+    else if r = .pending then .error "await-parks-when-nothing-to-deliver"
+    else match firstFail (clauses h (.next w) r) with
+      | some c => .error c
+      | none => .ok ((.next w, r) :: h, pk)
+  | .op _, .parked => .error "answer-kind"
+  | .op o, .plain r =>
+    let held := match o with
+      | .next w => pk.contains w
+      | _ => false
+    if held then .error "stream-held-by-awaiting-task"
+    else match firstFail (clauses h o r) with
+      | some c => .error c
+      | none =>
+        .ok ((o, r) :: h, match o with
+          | .drop w => pk.filter (fun x => x != w)
+          | _ => pk)
+
+def checkItem (h : Hist) (pk : List Nat) (it : Item) (o : Out) : Except String (Hist × List Nat) :=
+  match checkAnswer h pk it o.ans with
+  | .error c => .error c
+  | .ok (h1, pk1) =>
+    match checkWoken h1 pk1 o.woken with
+    | .error c => .error c
+    | .ok (h2, pk2) =>
+      if pk2.all (mayStayParked h2) then .ok (h2, pk2) else .error "parked-watcher-is-woken"
+
+/-- First clause an observed history with awaiting watchers breaks (`none` = acceptable);
+otherwise the log and the streams still held by parked tasks at the end. -/
+def checkPark : Hist → List Nat → List (Item × Out) → Except String (Hist × List Nat)
+  | h, pk, [] => .ok (h, pk)
+  | h, pk, (it, o) :: t =>
+    match checkItem h pk it o with
+    | .error c => .error c
+    | .ok (h', pk') => checkPark h' pk' t
+
 end Spec.Health
